@@ -160,3 +160,72 @@ def satisfaction(ex, expr):
     except (ScriptError, BTClibValueError):
         claims["engine_accepts_the_satisfaction"] = False
     return claims
+
+
+# ------------------------------------------------------------------ tapscript context
+from btclib.script.engine import tapscript as _tapscript
+
+_XKEYHEX = {k: v[2:] for k, v in _KEYHEX.items()}
+_XKEY = {k: bytes.fromhex(v) for k, v in _XKEYHEX.items()}
+_TAP_EXPRS = {
+    "pk": ("pk(A)", lambda a: a["A"]),
+    "and_v": ("and_v(v:pk(A),pk(B))", lambda a: a["A"] and a["B"]),
+    "or_d": ("or_d(pk(A),pk(B))", lambda a: a["A"] or a["B"]),
+    "or_i": ("or_i(pk(A),pk(B))", lambda a: a["A"] or a["B"]),
+    "andor": ("andor(pk(A),pk(B),pk(C))", lambda a: (a["A"] and a["B"]) or a["C"]),
+    "multi_a2": ("multi_a(2,A,B,C)", lambda a: (a["A"] + a["B"] + a["C"]) >= 2),
+    "multi_a1": ("multi_a(1,A,B)", lambda a: (a["A"] + a["B"]) >= 1),
+    "multi_a3": ("multi_a(3,A,B,C)", lambda a: (a["A"] + a["B"] + a["C"]) >= 3),
+    "thresh": ("thresh(2,pk(A),s:pk(B),s:pk(C))", lambda a: (a["A"] + a["B"] + a["C"]) >= 2),
+    "older": ("and_v(v:pk(A),older(10))", lambda a: a["A"] and a["older"](10)),
+    "recovery": ("or_d(pk(A),and_v(v:pk(B),older(144)))", lambda a: a["A"] or (a["B"] and a["older"](144))),
+    "hash": ("and_v(v:pk(A),sha256(" + _H256 + "))", lambda a: a["A"] and a["pre"]),
+}
+
+
+def _tap_text(name):
+    t = _TAP_EXPRS[name][0]
+    for k, v in _XKEYHEX.items():
+        t = t.replace("(" + k + ")", "(" + v + ")").replace("," + k + ",", "," + v + ",").replace("," + k + ")", "," + v + ")")
+    return t
+
+
+@ob("C15", "tapscript_satisfaction_and_size", quick=[dict(expr=e) for e in _TAP_EXPRS],
+    bound="12 expressions in the tapscript context (x-only keys, multi_a, CHECKSIGADD): predicted size, read-back, text re-parse; and with the availability of each signature and the preimage and the "
+          "sequence symbolic, satisfy() answers exactly when the condition holds and verify_script_path_vc0 runs the leaf to success on that witness",
+    stubs=["tapscript.ssa_verify answers True exactly for the (signature, key) pairs made available; the control block / commitment is C12's subject"],
+    functions=["btclib.descriptors.miniscript.Miniscript.satisfy", "btclib.script.engine.tapscript.verify_script_path_vc0", "btclib.descriptors.miniscript.from_script"], min_ok=1, timeout=600)
+def tap_satisfaction(ex, expr):
+    text, cond = _TAP_EXPRS[expr]
+    node = ms.parse(_tap_text(expr), ms.TAPSCRIPT)
+    script = node.script()
+    back = ms.from_script(script, ms.TAPSCRIPT)
+    claims = {"size_is_predicted": len(script) == node.script_size, "reads_back": back == node, "text_reparses": ms.parse(str(node), ms.TAPSCRIPT) == node}
+    have = {k: (bool(ex.bool("sig_" + k)) if (k + ")" in text or k + "," in text) else False) for k in "ABC"}
+    pre = bool(ex.bool("preimage")) if "sha256" in text else False
+    sequence = ex.int("sequence", 0, 0xFFFFFFFF) if "older" in text else 0xFFFFFFFE
+    spend = ms.SpendContext(sha256_preimages={bytes.fromhex(_H256): _PRE} if pre else {}, locktime=0, sequence=sequence, version=2)
+    sig_of = {k: bytes([0x40 + "ABC".index(k)]) * 64 for k in "ABC"}
+    sigs = {_XKEY[k]: sig_of[k] for k in "ABC" if have[k]}
+    avail = dict(have)
+    avail["pre"] = pre
+    avail["older"] = lambda v: bool(sand((sequence & (1 << 31)) == 0, (sequence & (1 << 22)) == (v & (1 << 22)), (v & 0xFFFF) <= (sequence & 0xFFFF)))
+    try:
+        witness = node.satisfy(sigs, spend)
+    except BTClibValueError:
+        witness = None
+    holds = cond(avail)
+    if witness is None:
+        claims["refused_only_when_the_condition_fails"] = not holds
+        return claims
+    claims["condition_holds"] = bool(holds)
+    ok_pairs = {(sig_of[k], _XKEY[k]) for k in "ABC" if have[k]}
+    ex.stub(_tapscript.ssa_verify, lambda m, pk, s: (bytes(s), bytes(pk)) in ok_pairs)
+    tx = Tx(2, 0, [TxIn(OutPoint(b"\x01" * 32, 0, check_validity=False), b"", sequence, Witness(), check_validity=False)], [TxOut(1000, b"\x51", check_validity=False)], check_validity=False)
+    prevouts = [TxOut(2000, b"\x51\x20" + _XKEY["A"], check_validity=False)]
+    try:
+        _tapscript.verify_script_path_vc0(script, list(witness), prevouts, tx, 0, b"", 50 + 66 * len(witness) + len(script), ScriptFlag(0))
+        claims["engine_runs_the_leaf_to_success"] = True
+    except (ScriptError, BTClibValueError):
+        claims["engine_runs_the_leaf_to_success"] = False
+    return claims
